@@ -137,6 +137,10 @@ def _body_lines(body: dict, params: list[str], env_name: str = "_E") -> list[str
             lines.append(f"if type({first}) is int and {first} >= {body['k']}: raise {env_name}.err({body['t']!r} + str({first}))")
         lines.append(f"return ({body['t']!r},) + {tup}")
         return lines
+    if b == "strAttr":
+        # two such bodies differ ONLY in the attribute name they call (identical bytecode, different name table)
+        assert body["m"] in ("upper", "lower", "title", "swapcase")
+        return [f"return ({body['t']!r}, str({first}).{body['m']}())"]
     if b == "nonBool":
         return ["return 1"]
     if b == "wrongArity":
